@@ -81,7 +81,7 @@ pub fn check_position(p: &Pos, st: &mut Stats) -> Result<(), Fail> {
 }
 
 pub fn run(run: &mut Run) -> &'static str {
-    let cases = run.tier.pick(40_000, 2_000_000);
+    let cases = run.tier.pick(300_000, 6_000_000);
     run.proptest_part("positions", RULE, pos_case(4..160), cases, |c: &PosCase, st: &mut Stats| {
         // alternate between the general mix and the heavy-material mix
         let mix = match c {
@@ -94,7 +94,7 @@ pub fn run(run: &mut Run) -> &'static str {
         }
         Ok(())
     });
-    let cases = run.tier.pick(2_000_000, 50_000_000);
+    let cases = run.tier.pick(10_000_000, 200_000_000);
     let strat = (-20_000i16..=20_000, -20_000i16..=20_000, 0i16..=88).prop_map(|(mg, eg, phase)| Triple { mg, eg, phase });
     run.proptest_part("blend", RULE, strat, cases, |t: &Triple, st: &mut Stats| {
         st.eval();
